@@ -36,6 +36,12 @@ def q_program(shape, L1, L2, L3, RG, size, v, k, x):
         body = [["sequential_block", g, ["parallel_block", ["sequential_block", g, g], ["gate", "n1", v]]], ["parallel_block", ["gate", "n1", L2]]]
     elif shape == 4:
         body = []
+    elif shape == 6:
+        # begins with a loop that begins with an ordinary gate; a subcircuit only comes later: wrapped
+        body = [["loop", L3, ["sequential_block", g, ["subcircuit_block", L1, g]]], ["gate", "n1", L2]]
+    elif shape == 7:
+        # begins with a block in which prepare_all is not the first statement: wrapped
+        body = [["sequential_block", ["parallel_block", g], ["gate", "prepare_all"], ["subcircuit_block", k, g]], ["gate", "n1", 2.5]]
     else:
         body = [["sequential_block", ["gate", "prepare_all"], g], ["gate", "measure_all"]]
     return head + body
@@ -317,6 +323,10 @@ def timing_program(shape, l0, l1, l2, l3):
             + [["subcircuit_block", 5] + [G() for _ in range(l1)], G(), ["loop", 2, ["sequential_block", ["subcircuit_block", ""] + [G() for _ in range(l2)]]]]
     elif shape == 4:
         body = [["loop", 2, ["sequential_block", ["parallel_block", G(), seq(l0)]]], ["parallel_block", seq(l1), G()], ["loop", l2, seq(l3)]]
+    elif shape == 6:
+        # empty parallel / sequential blocks at the start and in the middle of the branches of a parallel block
+        body = [["parallel_block", ["sequential_block", ["parallel_block"]] + [G() for _ in range(l0)] + [["parallel_block"]] + [G() for _ in range(l1)], seq(l2)],
+                ["parallel_block", ["sequential_block", ["sequential_block"]] + [G() for _ in range(l3)] + [["parallel_block", ["sequential_block"]], G()], G()]]
     else:
         # a loop nested inside a parallel block: must be rejected
         body = [["parallel_block", ["sequential_block", G()] + [G() for _ in range(l0)] + [["loop", 2, seq(l1)]], G()]]
